@@ -22,6 +22,8 @@ fn cap_word(c: &Capability) -> &'static str {
         Capability::AG_AIRBORNE => "airborne",
         Capability::AG_UNCERTAIN2 => "uncertain2",
         Capability::AG_UNCERTAIN3 => "airborne?",
+        #[allow(unreachable_patterns)]
+        _ => "<variant unknown to the reference>",
     }
 }
 
@@ -48,6 +50,8 @@ fn sign_word(s: &Sign) -> &'static str {
     match s {
         Sign::Positive => "",
         Sign::Negative => "-",
+        #[allow(unreachable_patterns)]
+        _ => "<variant unknown to the reference>",
     }
 }
 
@@ -61,6 +65,8 @@ fn emergency_word(e: &EmergencyState) -> &'static str {
         EmergencyState::UnlawfulInterference => "unflawful interference",
         EmergencyState::DownedAircraft => "downed aircraft",
         EmergencyState::Reserved2 => "reserved2",
+        #[allow(unreachable_patterns)]
+        _ => "<variant unknown to the reference>",
     }
 }
 
@@ -174,6 +180,8 @@ fn me_text(m: &ME, addr: &ICAO, address_type: &str, capability: &str, transponde
                     let src = match v.vrate_src {
                         VerticalRateSource::BarometricPressureAltitude => "barometric",
                         VerticalRateSource::GeometricAltitude => "GNSS",
+                        #[allow(unreachable_patterns)]
+                        _ => "<variant unknown to the reference>",
                     };
                     writeln!(f, "  Vertical rate: {vrate} ft/min {src}").unwrap();
                 } else {
@@ -194,6 +202,8 @@ fn me_text(m: &ME, addr: &ICAO, address_type: &str, capability: &str, transponde
                 writeln!(f, " Extended Squitter{t}Airborne Velocity status (reserved)").unwrap();
                 f += &addr_line;
             }
+            #[allow(unreachable_patterns)]
+            _ => f += "<velocity variant unknown to the reference>\n",
         },
         ME::AirbornePositionGNSSAltitude(alt) => {
             writeln!(f, " Extended Squitter{t}Airborne position (GNSS altitude)").unwrap();
@@ -309,6 +319,8 @@ fn me_text(m: &ME, addr: &ICAO, address_type: &str, capability: &str, transponde
             writeln!(f, " Extended Squitter{t}Aircraft operational status (reserved)").unwrap();
             f += &addr_line;
         }
+        #[allow(unreachable_patterns)]
+        _ => f += "<ME variant unknown to the reference>\n",
     }
     f
 }
@@ -319,6 +331,8 @@ fn bds_text(b: &BDS) -> String {
         BDS::AircraftIdentification(s) => format!("Comm-B format: BDS2,0 Aircraft identification\n  Ident:         {s}\n"),
         BDS::DataLinkCapability(_) => "Comm-B format: BDS1,0 Datalink capabilities\n".to_string(),
         BDS::Unknown(_) => "Comm-B format: unknown format\n".to_string(),
+        #[allow(unreachable_patterns)]
+        _ => "<BDS variant unknown to the reference>\n".to_string(),
     }
 }
 
@@ -388,6 +402,8 @@ pub fn render(frame: &Frame, cf_type: Option<u64>) -> String {
             writeln!(f, " Mode S Extended Squitter Message").unwrap();
             writeln!(f, "    ICAO Address:     {crc:x} (Mode S / ADS-B)").unwrap();
         }
+        #[allow(unreachable_patterns)]
+        _ => f += "<DF variant unknown to the reference>\n",
     }
     f
 }
